@@ -46,7 +46,7 @@ def _case(draw, tier):
         (1, ops.dmeta_op(PIDS, ["f"])),
         (1, ops.REOPEN))
     return {"cfg": cfg, "contents": cs, "docs": [{"hex": "6d"}],
-            "ops": draw(st.lists(op, min_size=2, max_size=30))}
+            "ops": draw(st.lists(ops.on_instances(op), min_size=2, max_size=30))}
 
 
 def strategy(tier):
